@@ -18,12 +18,17 @@
 #ifndef VF_STRUCT
 void harness(void)
 {
-    unsigned char s[VF_N + 1];
+    unsigned char buf[VF_N + 1];
     unsigned n = nondet_uint();
     VF_ASSUME(n <= VF_N);
+#ifdef VF_TAIL_ALIGN     /* terminator = last byte of the object */
+    unsigned char *s = buf + (VF_N - n);
+#else
+    unsigned char *s = buf;
+#endif
     for (unsigned i = 0; i < VF_N; i++) {
-        s[i] = nondet_uchar();
-        if (i < n) VF_ASSUME(s[i] != 0);
+        unsigned char c = nondet_uchar();
+        if (i < n) { VF_ASSUME(c != 0); s[i] = c; }
     }
     s[n] = 0;
     int rc = is_ascii_domain((const char *) s, (const char *) s + n);
